@@ -41,45 +41,3 @@ Qed.
 Theorem jls_scan_clean : forall scan rst r pos e, PG.jls_marker_free scan = true ->
   jls_scan rst (scan ++ 255 :: 217 :: r) pos e = WOk (255 :: 217 :: r, pos + zlen scan).
 Proof. intros. apply (jls_scan_clean_n (length scan)); [lia | assumption]. Qed.
-
-(* the converse for the encoder's frame layout: if the scan step stops exactly on the EOI that follows
-   the scan bytes, they are marker free *)
-Lemma jls_scan_clean_inv_n : forall n scan, (length scan <= n)%nat -> forall rst pos e,
-  jls_scan rst (scan ++ [255; 217]) pos e = WOk ([255; 217], pos + zlen scan) ->
-  Forall (fun b => 0 <= b) scan -> PG.jls_marker_free scan = true.
-Proof.
-  induction n as [|n IH]; intros scan Hl rst pos e H Hnn.
-  - destruct scan; [reflexivity | cbn in Hl; lia].
-  - destruct scan as [|b t]; [reflexivity|]. cbn [length] in Hl. inversion Hnn as [|b' t' Hb Ht]; subst b' t'.
-    cbn [app jls_scan] in H. cbn [PG.jls_marker_free]. rewrite zlen_cons in H.
-    destruct (Z.eqb_spec b 255) as [Eb|Nb].
-    + destruct t as [|c t'].
-      * cbn [app] in H. cbn in H. inversion H. change (zlen []) with 0 in *. lia.
-      * cbn [app] in H. inversion Ht as [|c' t'' Hc Ht']; subst c' t''. rewrite zlen_cons in H.
-        destruct (Z.ltb_spec c 128) as [Hlt|Hge].
-        -- assert (E : PG.jls_marker_free t' = true).
-           { eapply (IH t' ltac:(cbn [length] in Hl; lia) rst (pos + 2) e); [|exact Ht'].
-             rewrite H. f_equal. f_equal. lia. }
-           destruct (Z.leb_spec 0 c); [|lia]. cbn [andb].
-           cbn [PG.jls_marker_free]. rewrite E.
-           destruct (Z.eqb_spec c 255); [lia|]. reflexivity.
-        -- exfalso.
-           destruct ((208 <=? c) && (c <=? 215)).
-           ++ destruct (rst && (c =? 208 + e)); [|discriminate].
-              (* an RST consumed inside: the walker would go on; the position cannot match *)
-              assert (Hpos : forall l p q x y, jls_scan rst l p q = WOk (x, y) -> p <= y).
-              { clear. induction l as [|a l IHl] using (well_founded_induction (wf_inverse_image _ nat _ (@length Z) PeanoNat.Nat.lt_wf_0)).
-                intros p q x y H. destruct l as [|a l]; [discriminate|]. cbn [jls_scan] in H.
-                destruct (a =? 255).
-                - destruct l as [|c l']; [discriminate|].
-                  destruct (c <? 128); [apply IHl in H; [lia | cbn; lia]|].
-                  destruct ((208 <=? c) && (c <=? 215)).
-                  + destruct (rst && (c =? 208 + q)); [apply IHl in H; [lia | cbn; lia] | discriminate].
-                  + destruct (c =? 255); [discriminate|]. inversion H. lia.
-                - apply IHl in H; [lia | cbn; lia]. }
-              pose proof (Hpos _ _ _ _ _ H). assert (Hlen : length ([255; 217] : list Z) = 2%nat) by reflexivity.
-              (* the returned list is a suffix of t' ++ [255;217] positioned at pos + 2 + k; it is the last two bytes iff k = zlen t' *)
-              admit_placeholder.
-           ++ admit_placeholder.
-    + admit_placeholder.
-Abort.
